@@ -27,6 +27,7 @@ import (
 type z9Scenario struct {
 	Name       string   `json:"name"`
 	Op         string   `json:"op"` // pull, push
+	Present    int      `json:"present,omitempty"` // push: the registry already holds the first n layers
 	Layers     []int    `json:"layers"`
 	Config     int      `json:"config"` // size of the config blob (0: none)
 	MaxStreams int      `json:"max_streams"`
@@ -280,6 +281,9 @@ func z9Push(sc z9Scenario, w *z9World, reg *Registry, c *blob.DiskCache) {
 		}
 		m.Layers = append(m.Layers, layer{d.String(), "application/vnd.ollama.image.model", n})
 		digests = append(digests, d.String())
+		if i < sc.Present {
+			srv.AddBlob(data)
+		}
 	}
 	mb, _ := json.Marshal(m)
 	md := blob.DigestFromBytes(mb)
@@ -336,6 +340,8 @@ func z9Scenarios(thorough bool) []z9Scenario {
 		{Name: "stall", Op: "pull", Layers: []int{12}, MaxStreams: 2, Faults: []string{"stall"}, Faulty: 1},
 		{Name: "push", Op: "push", Layers: []int{3, 12}, MaxStreams: 2, Faults: []string{"500", "neterr"}},
 		{Name: "push-cancel", Op: "push", Layers: []int{3, 12}, MaxStreams: 1, Cancel: true},
+		{Name: "push-present", Op: "push", Layers: []int{3, 12}, MaxStreams: 1, Present: 1, Faults: []string{"500", "neterr"}},
+		{Name: "push-present-parallel", Op: "push", Layers: []int{3, 12, 5}, MaxStreams: 2, Present: 2, Faults: []string{"500"}},
 	}
 	if thorough {
 		l = append(l,
